@@ -127,6 +127,16 @@ class Runner:
         return None
 
     def _mk(self, slot, kind):
+        if kind == 'connect' and self.cfg.get('req_auth') and slot[1] != '*':
+            # connect handler with a REQUIRED auth parameter: a CONNECT without auth payload reaches it through
+            # the library's TypeError retry path, with auth=None
+            if self.coro:
+                async def h3(sid, environ, auth):
+                    return self._invoked(slot, kind, (sid, environ) + (() if auth is None else (auth,)))
+            else:
+                def h3(sid, environ, auth):
+                    return self._invoked(slot, kind, (sid, environ) + (() if auth is None else (auth,)))
+            return h3
         if self.coro:
             async def h(*args):
                 plan = self._active_plan(slot, kind, [a for a in args if not (isinstance(a, dict) and 'verif.tid' in a)])
